@@ -112,6 +112,48 @@ func CreateSubscription(c gocoro.Coroutine[*t_aio.Submission, *t_aio.Completion,
 					CreatedOn: createdOn,
 				}
 			}
+
+			if result.RowsAffected == 0 {
+				// Either the registration already exists or the promise was
+				// completed by another coroutine after we read it (the insert is
+				// guarded by the promise being pending). Read the promise again
+				// so that the response never reports a pending promise when
+				// nothing was (or already is) registered for it.
+				completion, err := gocoro.YieldAndAwait(c, &t_aio.Submission{
+					Kind: t_aio.Store,
+					Tags: r.Tags,
+					Store: &t_aio.StoreSubmission{
+						Transaction: &t_aio.Transaction{
+							Commands: []*t_aio.Command{
+								{
+									Kind: t_aio.ReadPromise,
+									ReadPromise: &t_aio.ReadPromiseCommand{
+										Id: r.CreateSubscription.PromiseId,
+									},
+								},
+							},
+						},
+					},
+				})
+
+				if err != nil {
+					slog.Error("failed to read promise", "req", r, "err", err)
+					return nil, t_api.NewError(t_api.StatusAIOStoreError, err)
+				}
+
+				util.Assert(completion.Store != nil, "completion must not be nil")
+				util.Assert(len(completion.Store.Results) == 1, "completion must have one result")
+
+				result := completion.Store.Results[0].ReadPromise
+				util.Assert(result != nil, "result must not be nil")
+				util.Assert(result.RowsReturned == 1, "promise must still exist")
+
+				p, err = result.Records[0].Promise()
+				if err != nil {
+					slog.Error("failed to parse promise record", "record", result.Records[0], "err", err)
+					return nil, t_api.NewError(t_api.StatusAIOStoreError, err)
+				}
+			}
 		}
 
 		res = &t_api.Response{
